@@ -50,6 +50,21 @@ Theorem c09_position_stable_answer_partial : forall s s' d rd,
 Proof. exact answer_same_positions_lemma. Qed.
 Print Assumptions c09_position_stable_answer_partial.
 
+(* (2), a whole round: once an exchange has ended with remote description ra
+   whose mids are those of our description d1 (ra answers our offer d1, or d1 is
+   our answer to the offer ra), every offer created afterwards - after any local
+   AddTransceiver / Stop / CreateDataChannel / CreateOffer calls - starts with the
+   sections of d1 at their places; whatever is new comes after them *)
+Theorem c09_round_partial : forall s d1 ra ops s2 d2,
+  cur_remote s = Some ra -> pend_remote s = None ->
+  map Some (map r_mid (r_secs ra)) = sec_mids d1 ->
+  (forall r, In r (r_secs ra) -> usable r = true) ->
+  Forall is_local ops -> codecs_ok (run_from s ops) ->
+  create_offer (run_from s ops) = (s2, Ok d2) ->
+  exists extra, sec_mids d2 = sec_mids d1 ++ extra.
+Proof. exact round_extends_lemma. Qed.
+Print Assumptions c09_round_partial.
+
 (* (3): a mid CreateOffer gives a transceiver differs from every mid of the
    current remote description (while greaterMid does not overflow) ... *)
 Theorem c09_no_reuse_partial : forall s i t t' r,
